@@ -4,6 +4,8 @@ from ..core import (AnalysisError, U, calls_in, call_tail, call_recv, call_name,
 from ..cfg import CFG, assigned_value
 from ..lib import (params, returns_of, is_none_const, dominating_literals, norm_literal)
 
+from . import extra as X
+
 EXPLANATION = ("Typestate UNANCHORED -> ANCHORED on the accumulator of ResourceQuerySegment._query_to_absolute: the test that "
                "selects 'copy the base directory in' is re-derived from the source, and no accumulator-derived argument of a "
                "recursive call may re-enable it (abstract values NONE / EMPTY / NONEMPTY / LIST); every '..' shortens a provably "
@@ -203,3 +205,4 @@ def run(chk):
     rule_dotdot(chk, "C19.2")
     rule_untouched(chk, "C19.3")
     rule_call_sites(chk, "C19.4")
+    X.rule_to_absolute_early_return(chk, "C19.5")
